@@ -10,7 +10,7 @@ from __future__ import annotations
 import numpy as np
 
 from .. import boson, circmon, emumon
-from ..gen import Builder
+from ..gen import Builder, equivalent_variant
 from .common import drain_into, merge_stats, setup
 
 PROPERTY = "C03"
@@ -52,6 +52,9 @@ def make_circuit(ctx, lw, rng):
         c = b.leaf(n, int(rng.integers(0, 8)), log, heralds=int(rng.integers(0, 3)))
     else:
         c = b.tree(n, int(rng.choice([1, 2])), log, max_children=3, direct_heralds_p=0.4)
+    c, variant = equivalent_variant(c, rng)
+    log.append(["presented_as", variant])
+    ctx.bucket("circuit_presented_as:" + variant)
     return c, log
 
 
